@@ -1,9 +1,10 @@
 #!/bin/sh
-# usage: seed_matrix.sh [out file]  -- runs every seeded change against the quick check of its property (scratch copy of /repo/src)
-out=${1:-/verif/scratch/seed_matrix.txt}
-: > "$out"
-for d in /verif/seeded/*/; do
-  id=$(basename "$d"); prop=${id%%_*}
+# usage: seed_matrix.sh [out file] [parallel jobs]  -- runs every seeded change against the quick check of its property
+# (on scratch copies of /repo/src, so several can run side by side)
+out=${1:-/verif/seeded/MATRIX.txt}; jobs=${2:-3}
+tmp=$(mktemp -d /tmp/seedmx_XXXXXX)
+ls -d /verif/seeded/*/ | xargs -P "$jobs" -I{} sh -c '
+  d={}; id=$(basename "$d"); prop=${id%%_*}
   res=$(/verif/tools/seedcopy.sh "$prop" "$d/patch.diff" 2>&1)
   verdict=MISSED
   echo "$res" | grep -q "^VIOLATION" && verdict=DETECTED
@@ -12,7 +13,10 @@ for d in /verif/seeded/*/; do
     echo "$res" | grep -q "CHECKER-ERROR" && verdict="MISSED (checker error)"
     echo "$res" | grep -q "patch does not apply" && verdict="PATCH-DOES-NOT-APPLY"
   fi
-  ob=$(echo "$res" | grep "^VIOLATION" | sed 's/.*replays\/[A-Z0-9]*\///; s/\.json.*//' | head -1)
-  echo "$id | $verdict | $ob" >> "$out"
-done
+  ob=$(echo "$res" | grep "^VIOLATION" | sed "s/.*replays\/[A-Z0-9]*\///; s/\.json.*//" | head -1)
+  inp=""
+  if [ "$verdict" = DETECTED ]; then echo "$res" | grep "^VIOLATION" | grep -q "no-failing-input-found" && inp="no input" || inp="replayed input"; fi
+  echo "$id | $verdict | $ob | $inp" > '"$tmp"'/$id.txt'
+cat "$tmp"/*.txt | sort > "$out"
+rm -rf "$tmp"
 cat "$out"
